@@ -67,7 +67,7 @@ CLAIMED = {
         technique="property-based testing with rapid; differential oracle for ErrClosed = closed *os.File twin; invariant oracles for sibling independence and for 'old name stays gone'",
         text=("On 7 subjects: every method, and its boundary-argument variants (empty buffers, Seek(0,current), ReadDir(-1), same-size Truncate), in every order after Close (an error wherever os.File gives one, no panic, ErrClosed where os.File says so); generated action sequences on one handle while a sibling's offset and validity are compared with an os twin; "
               "remove/rename/RemoveAll followed by mutations through a previously opened handle with Stat(old)/listing checked after each. Sampled exploration."),
-        note="methods a handle never had (e.g. Write on a read-only keyvalue handle) are exempt from the ErrClosed requirement (the helper answers ErrNotImplemented); sibling contents are not compared over a plain Store (snapshot copies by design)",
+        note="sibling contents are not compared over a plain Store (snapshot copies by design)",
     ),
     "C19": dict(
         technique="model-based (state-machine) property testing with rapid against a []byte model with alias groups; the same machine under GOOS=js/wasm (node) for the typed-array blob; rapid.MakeFuzz native fuzzing in the thorough tier",
